@@ -826,9 +826,11 @@ func c19sched(c *run.Ctx) {
 		schedules := 0
 		exhaustive := true
 		for {
-			need := map[int]bool{}
+			need := map[int]bool{0: true, 1: true} // both grants always exist: the untouched one is the bystander
+			touched := map[int]bool{}
 			for _, i := range cb.idx {
 				need[ops[i].grant] = true
+				touched[ops[i].grant] = true
 			}
 			w, env := schedSetup(ci%2 == 1, need)
 			handed := make([][]string, len(cb.idx))
@@ -878,6 +880,16 @@ func c19sched(c *run.Ctx) {
 						c.Violate(run.Violation{Kind: "handed-token-inactive", Key: "handed-token-inactive " + strings.Join(names, " || "), Detail: fmt.Sprintf("a token handed to the caller of %s is inactive although no concurrent operation invalidates its grant", ops[i].name), History: s.Trace})
 					}
 				}
+			}
+			// isolation under every interleaving: the tokens of a grant no operation touches stay active
+			for g := 0; g < 2; g++ {
+				if touched[g] {
+					continue
+				}
+				if !w.IntrospectAPI(env.at[g], fosite.AccessToken).Active || !w.IntrospectAPI(env.rt[g], fosite.RefreshToken).Active {
+					c.Violate(run.Violation{Kind: "bystander-token-inactive", Key: "bystander-token-inactive " + strings.Join(names, " || "), Detail: fmt.Sprintf("tokens of grant %d, which none of the concurrent operations touches, are no longer active", g), History: s.Trace})
+				}
+				c.Count("c19_bystander_checks", 1)
 			}
 			if schedules == 1 && ci < 3*c.NShards {
 				c.Sample(map[string]interface{}{"operations": names, "first_schedule": s.Trace})
